@@ -44,6 +44,15 @@ func (env *SpecEnv) heap() *State {
 	return env.st
 }
 
+// specBoolA translates a clause that is going to be ASSUMED: quantified facts are then emitted in
+// both the relative (at) and the absolute (select) form to give the solver more ways to use them.
+func (e *Exec) specBoolA(env *SpecEnv, c *Clause) string {
+	saved := e.dual
+	e.dual = true
+	defer func() { e.dual = saved }()
+	return e.specBool(env, c)
+}
+
 func (e *Exec) specBool(env *SpecEnv, c *Clause) string {
 	if c.fn == nil || c.fn.Expr == nil {
 		e.errorf("%s:%d: clause has no expression (not type-checked?)", c.File, c.Line)
@@ -646,12 +655,25 @@ func (e *Exec) sxCall(env *SpecEnv, n *ast.CallExpr) SVal {
 			return e.specErr(env, n, "quantifier body must be a single return")
 		}
 		if name == "forall" {
-			return SVal{T: fmt.Sprintf("(forall (%s) %s)", strings.Join(decls, " "), implies(and(ranges...), body)), Typ: boolT}
+			f := fmt.Sprintf("(forall (%s) %s)", strings.Join(decls, " "), implies(and(ranges...), body))
+			if len(decls) == 1 && e.dual {
+				// equivalent second form over the absolute array index, so that the quantifier is also
+				// triggered by plain (select array index) terms: i := q - off
+				bn := strings.Fields(strings.Trim(decls[0], "()"))[0]
+				if alt := absoluteForm(bn, implies(and(ranges...), body)); alt != "" {
+					f = and(f, alt)
+				}
+			}
+			return SVal{T: f, Typ: boolT}
 		}
 		return SVal{T: fmt.Sprintf("(exists (%s) %s)", strings.Join(decls, " "), and(append(ranges, body)...)), Typ: boolT}
 	case "held":
 		id := e.lockID(env, n.Args[0])
 		return SVal{T: sel(e.hget(env.heap(), "G_held"), id), Typ: boolT}
+	case "heldx":
+		id := e.lockID(env, n.Args[0])
+		hx := e.heapMap("G_heldx", "(Array Int Bool)")
+		return SVal{T: and(sel(e.hget(env.heap(), "G_held"), id), sel(e.hget(env.heap(), hx), id)), Typ: boolT}
 	case "holdsNone":
 		return SVal{T: fmt.Sprintf("(= %s ((as const (Array Int Bool)) false))", e.hget(env.heap(), "G_held")), Typ: boolT}
 	case "lockOf":
